@@ -62,6 +62,8 @@ class Direction:
         if line.targeted:
             fate = line.target_fate(self.name, data) or fate
         fate = fate or ["d"]
+        if line.dead:
+            fate = ["x"]
         kind = fate[0]
         frames = refash.split_wire(data)
         fk = frames[0].get("kind") if frames else "?"
@@ -69,6 +71,8 @@ class Direction:
         if kind != "d":
             self.hits.append((k, kind, fk))
         if kind == "x":
+            if line.hook is not None:
+                line.hook(g, self.name, None)
             return
         delay = LATENCY
         out = [data]
@@ -79,6 +83,8 @@ class Direction:
         elif kind == "s":
             delay += float(fate[1])
         when = max(self.last_delivery + 1e-6, loop.time() + delay)
+        if line.hook is not None:
+            line.hook(g, self.name, when)
         for d in out:
             self.last_delivery = when
             loop.call_at(when, self._deliver, d)
@@ -87,6 +93,8 @@ class Direction:
     def _deliver(self, data):
         line = self.line
         loop = line.loop
+        if line.dead:
+            return
         if loop.iterations == line.last_iter:
             loop.call_soon(self._deliver, data)
             return
@@ -104,6 +112,8 @@ class Line:
         self._seen = {}
         self.last_iter = -1
         self.log = []
+        self.hook = None     # callable(global ordinal, direction name, delivery time or None) at write time
+        self.dead = False    # True: everything written from now on is lost (silent peer / cut line)
         self.h2n = Direction(self, "h2n", fates_h2n)
         self.n2h = Direction(self, "n2h", fates_n2h)
 
